@@ -1625,6 +1625,20 @@ class Evaluator:
         results = []
         is_method_on_value = False
         callee = self.P.resolve_callee(mod, fi, e.func) if not _rooted_in_env_call(e.func, st, fi) else None
+        if (callee is None or callee.kind == 'unknown') and isinstance(e.func, ast.Attribute) \
+                and isinstance(e.func.value, ast.Name) and e.func.value.id not in ('self', 'cls') and fi is not None:
+            # obj.method(...) where obj was built in this method as cls() / ClassName(): a method of the own class
+            f_ = fi
+            while f_ is not None and f_.cls is None:
+                f_ = f_.parent
+            t_ = st.env.get(e.func.value.id)
+            if f_ is not None and t_ is not None and t_[0] in ('callv', 'call'):
+                made = t_[1]
+                own = made in (S('cls'), 'cls', ('ref', '%s.%s' % (mod.name, f_.cls)), '%s.%s' % (mod.name, f_.cls))
+                q_ = '%s.%s.%s' % (mod.name, f_.cls, e.func.attr)
+                if own and q_ in self.P.funcs:
+                    from .model import Callee
+                    callee = Callee('repo', q_, self.P.funcs[q_])
         base_nodes = []
         if callee is None or callee.kind == 'unknown':
             if isinstance(e.func, ast.Attribute):
